@@ -17,7 +17,9 @@ an allocator and the live roots (every input a caller built, every result a pars
 * **no cross-call state**: along every history of parses (successful or failing), caller mutations of
   objects reached through results, attribute assignments and copies, the declarations stay what they were
   (`C19_history_preserves_declaration`), hence a parse after the history returns what it returns in a
-  world that has seen nothing (`C19_history_independent`).
+  world that has seen nothing — stated against a specification of the parse that has no process state at all
+  (`World.callSpec`), proved from an invariant of the process state the parse reads and writes (`run_procOK`), and partial:
+  outside the known defect `staleParserOptions` (`C19_history_independent_partial`).
 
 All statements are for every environment of declarations, every type of the fragment, every input value,
 every history; no bound on sizes, depths or lengths.  Scope of the default clauses, as in the property:
@@ -774,7 +776,7 @@ Full statement (false of the unchanged code):
 — a wrapper made by `utype.parse(raw, options=O)` parses with `O`, whatever was decorated before. -/
 
 /-- `utype.parse(raw)` *without* options after an earlier `utype.parse(raw, options=…)` of the same function:
-`apply_for` hands back the cached parser, built with the earlier options (base.py:54-58). -/
+`apply_for` hands back the cached parser, built with the earlier options (base.py:57-63). -/
 def KnownDefect.staleParserOptions (ws : List (Option Opts)) (j : Nat) : Bool :=
   (ws[j]? == some none) && (ws.take j).any Option.isSome
 
@@ -1011,6 +1013,36 @@ example : ValidHist w0 hist1 := by decide +kernel
 /-- the initial world of the examples satisfies the process-state invariant, and so does the world after `hist1` -/
 example : ProcOK w0 := procOK_init w0 rfl
 example : (w0.run hist1).1.proc.resolved = [0, 0, 0] ∧ (w0.run hist1).1.proc.regCache.length = 6 := by decide +kernel
+
+/-- the caller stores an object of the first result into the second (`r2.a.append(r1.a[1])`), pops from and clears the first
+result's list, reads an attribute; the parse after that still gets a copy of the declared default `[1, [2]]` -/
+def hist2 : List Op :=
+  [.call 0 0 1 in0, .call 0 0 1 in0',
+   .mutate 15 (.append (.node 7 .list [] [.int 2])),
+   .mutate 8 .popLast, .mutate 8 .clear,
+   .getattr 1 "a",
+   .call 0 0 1 (.node 16 .dict ["n"] [.int 3])]
+example : ValidHist w0 hist2 := by decide +kernel
+example : (w0.run hist2).2 = [.ok, .ok, .ok, .ok, .ok, .ok, .ok] ∧
+    (w0.run hist2).1.env.dfltVals.map Val.mutIds = [[0, 1]] ∧
+    ((w0.run hist2).1.roots.map (fun r => r.map Val.mutIds)) =
+      [some [2], some [4, 5, 8, 8], some [9], some [11, 12, 15, 14, 7, 15, 14, 7], some [8], some [16],
+       some [18, 19, 22, 21, 22, 21]] := by decide +kernel
+
+/-- a deferred default (`Field(defer_default=True)`): the parse does not fill it in, every attribute read computes a new
+copy (ids 8/7, 10/9, 17/16 — the declared default keeps ids 0/1), also after one copy was changed and after a parse under
+`Options(defer_default=True)` -/
+def envD : Env := [{ kind := .schema, fields := [{ name := "a", ty := .bare .list, dflt := .val dfl0, defer := true }] }]
+def wD : World := { env := envD, next := 2 }
+def histD : List Op :=
+  [.call 0 0 1 (.node 2 .dict [] []), .getattr 1 "a", .getattr 1 "a", .mutate 7 (.append (.int 9)),
+   .call 0 0 1 (.node 11 .dict [] []) { deferDefault := true }, .getattr 1 "a"]
+example : WF wD := ⟨by decide, by decide, by decide⟩
+example : ValidHist wD histD := by decide +kernel
+example : (wD.run histD).2 = [.ok, .ok, .ok, .ok, .ok, .ok] ∧
+    (wD.run histD).1.env.dfltVals.map Val.mutIds = [[0, 1]] ∧
+    ((wD.run histD).1.roots.map (fun r => r.map Val.mutIds)) =
+      [some [2], some [4, 5], some [8, 7], some [10, 9], some [11], some [13, 14], some [17, 16]] := by decide +kernel
 
 /-! ### the write clause excludes something
 
